@@ -33,7 +33,7 @@ MSG_CLASSES = [
     (r"^attribute only allowed in parallel Ascent$", "irp_serial"),
     (r"^multiple `ds` attributes specified$", "multiple_ds"),
     (r"^`lattice`s cannot have custom data structure providers$", "ds_on_lattice"),
-    (r"^empty lattice is not allowed$", "empty_lattice"),
+    (r"empty lattice is not allowed$", "empty_lattice"),
     (r"`ascent_source`s cannot contain `include_source!`", "include_in_source"),
     (r"^cannot find attribute `c15_unknown_attr` in this scope", "rustc_unknown_rel_attr"),
     (r"^proc macro panicked", "panic"),
@@ -138,6 +138,8 @@ def oracle_invoke_level(p):
 def spec_for(case, kind, level):
     """the verdict the property demands: 'ok' | 'deferred' | set of admissible 'err:<class>'"""
     exps = case["expect"]
+    if level == "rustc" and any(e["cls"] == "rustc_unknown_rel_attr" for e in exps):
+        return {"err:rustc_unknown_rel_attr"}
     if level == "invoke":
         early = oracle_invoke_level(case["program"])
         if early == "deferred":
@@ -186,7 +188,7 @@ def gen_cases(tier, seed):
             exps = [exp]
             mut = name
             if rng.random() < 0.12:          # two violations: which one is reported first is the model's business
-                name2 = rng.choices(names, weights)[0]
+                name2 = rng.choices([n for n in names if n != name], [G.MUTATIONS[n][1] for n in names if n != name])[0]
                 try:
                     mp2 = copy.deepcopy(mp)
                     f = G.MUTATIONS[name2][0]
@@ -195,6 +197,14 @@ def gen_cases(tier, seed):
                 except (G.NoSite, IndexError, KeyError, TypeError):
                     pass
             cases.append(dict(id="b%dm%d" % (b, m), program=mp, expect=exps, mutation=mut, info=info))
+        if info["rustc_ok"] and rng.random() < 0.1:
+            for name in sorted(G.RUSTC_ONLY):     # classes rejected only at the level of rustc / of the source's own macro
+                try:
+                    mp, exp = G.mutate(rng, base, name)
+                    cases.append(dict(id="b%dr%s" % (b, name[:4]), program=mp, expect=[exp], mutation=name, info=info,
+                                      no_splice=(name == "include_in_source")))
+                except (G.NoSite, ValueError, IndexError):
+                    pass
         if rng.random() < 0.08:
             # capture of a user variable by a generated identifier: fresh names per macro kind (process-wide counter)
             for ki, kind in enumerate(A.KINDS):
@@ -208,7 +218,7 @@ def front_records(cases):
     for c in cases:
         kinds = [c["only_kind"]] if c.get("only_kind") else A.KINDS
         text = A.rust_text(c["program"])
-        stext = A.rust_text(A.spliced(c["program"])) if A.has_include(c["program"]) else None
+        stext = A.rust_text(A.spliced(c["program"])) if oracle_invoke_level(c["program"]) == "deferred" and not c.get("no_splice") else None
         for k in kinds:
             recs.append(("%s.%s.i" % (c["id"], k), k, text))
             if stext is not None:
@@ -261,43 +271,32 @@ def rustc_job(jid, p, kind):
                 scripts=[[("run",)]], pre="\n".join(lines), nlines=len(lines))
 
 
-def rustc_sample(tier, seed, cases, model):
-    """(jobs with expectation) — well-formed programs that must compile, mutants that must fail with the class's
-    message located inside the program text, the rustc-only classes, and the two panic witnesses"""
+def rustc_sample(tier, seed, cases):
+    """[(job, case, kind, admissible verdicts)] — well-formed programs that must compile, one mutant of every class
+    (listed classes first) that must fail with the class's message located inside the program text, the classes that
+    exist only at this level, and the two panic witnesses"""
     rng = lib.rng_for(seed, PROP, "rustc")
-    n = 14 if tier == "quick" else 120
-    picks = []
+    n = 20 if tier == "quick" else 120
     ok_bases = [c for c in cases if c["mutation"] == "none" and c["info"]["rustc_ok"]]
-    muts = [c for c in cases if c["mutation"] != "none" and "+" not in c["mutation"] and c["info"]["rustc_ok"] and not c.get("only_kind")
-            and c["expect"][0]["cls"] not in ("agg_unbound",)]
+    muts = [c for c in cases if c["mutation"] != "none" and "+" not in c["mutation"] and c["info"]["rustc_ok"]]
     rng.shuffle(ok_bases)
     rng.shuffle(muts)
-    seen_cls = set()
-    for c in muts:      # one of each class first
-        cls = c["expect"][0]["cls"]
-        if cls not in seen_cls:
-            seen_cls.add(cls)
-            picks.append(c)
-    rest = [c for c in muts if c not in picks]
-    nb = max(3, n // 4)
-    picks = picks[: n - nb - 2] + rest[: max(0, n - nb - 2 - len(picks))]
+    order = sorted(set(c["mutation"] for c in muts), key=lambda m: (m not in G.RUSTC_ONLY, not G.MUTATIONS.get(m, (0, 0, False))[2], m))
+    nb = max(3, n // 5)
+    picks, per = [], 0
+    while len(picks) < n - nb and per < 40:
+        for mname in order:
+            cs = [c for c in muts if c["mutation"] == mname]
+            if per < len(cs) and len(picks) < n - nb:
+                picks.append(cs[per])
+        per += 1
     jobs = []
     for c in ok_bases[:nb]:
         k = rng.choice(A.KINDS)
         jobs.append((rustc_job("w%s" % c["id"], c["program"], k), c, k, {"ok"}))
     for c in picks:
-        k = rng.choice(A.KINDS)
-        jobs.append((rustc_job("x%s" % c["id"], c["program"], k), c, k, spec_for(c, k, "check")))
-    # classes that exist only at this level
-    for i, base in enumerate(ok_bases[nb:nb + (2 if tier == "quick" else 12)]):
-        for name in G.RUSTC_ONLY:
-            try:
-                mp, exp = G.mutate(rng, base["program"], name)
-            except (G.NoSite, ValueError, IndexError):
-                continue
-            c = dict(id="%s_%s" % (base["id"], name), program=mp, expect=[exp], mutation=name, info=base["info"])
-            k = rng.choice(["ascent", "ascent_par"])
-            jobs.append((rustc_job("r%d%s" % (i, name[:4]), mp, k), c, k, {"err:" + exp["cls"]}))
+        k = c.get("only_kind") or rng.choice(A.KINDS)
+        jobs.append((rustc_job("x%s" % c["id"], c["program"], k), c, k, spec_for(c, k, "rustc")))
     return jobs
 
 
@@ -345,7 +344,7 @@ def tie(tier, seed, replay):
         dist[c["mutation"]] = dist.get(c["mutation"], 0) + len(kinds)
         for k in kinds:
             levels = [("i", "invoke", c["program"])]
-            if A.has_include(c["program"]):
+            if oracle_invoke_level(c["program"]) == "deferred" and not c.get("no_splice"):
                 levels.append(("s", "check", A.spliced(c["program"])))
             for suffix, level, pr in levels:
                 o = front["%s.%s.%s" % (c["id"], k, suffix)]
@@ -361,7 +360,7 @@ def tie(tier, seed, replay):
                                      what="%s! on a %s program (%s): the property demands %s, ascent_impl returned %s" % (
                                          k, "well-formed" if want == {"ok"} else "mutated", c["mutation"], sorted(want), iv)))
                 elif len(c["expect"]) == 1 and iv[0] == "err" and c["expect"][0].get("detail") is not None \
-                        and iv[1] == c["expect"][0]["cls"] and iv[1] != "not_stratified" and iv[2] != c["expect"][0]["detail"]:
+                        and iv[1] == c["expect"][0]["cls"] and iv[1] in ("undeclared", "arity", "shadow") and iv[2] != c["expect"][0]["detail"]:
                     mism.append(dict(case=dict(case=small), impl=iv, model=mv, spec=c["expect"], kind="impl_violates_spec", known=None,
                                      what="%s!: error of the right class but about %s instead of the injected %s" % (k, iv[2], c["expect"][0]["detail"])))
                 if not same_verdict(iv, mv, m["offenders"]):
@@ -373,31 +372,48 @@ def tie(tier, seed, replay):
                 if len(samples) < 40 and (len(samples) < 3 or c["mutation"] not in [s["mutation"] for s in samples]):
                     samples.append(dict(mutation=c["mutation"], kind=k, text=A.rust_text(pr)[:600], impl=iv, model=mv, spec=sorted(want)))
     # rustc level
-    rjobs = rustc_sample(tier, seed, [c for c in cases if "info" in c], model) if not replay else []
+    rjobs = rustc_sample(tier, seed, [c for c in cases if "info" in c]) if not replay else []
     rres = run_rustc("c15_%s" % tier, rjobs) if rjobs else []
     rdist = {}
+    model_by_id = {c["id"]: m for c, m in zip(cases, model)}
     for r in rres:
         c, want = r["case"], set(r["want"])
         key = "compiled" if r["compiled"] else "rejected"
         rdist[c["mutation"] + ":" + key] = rdist.get(c["mutation"] + ":" + key, 0) + 1
-        small = dict(id=r["job"]["id"], kind=r["kind"], level="rustc", mutation=c["mutation"], expect=c["expect"], program=c["program"], pre=r["job"]["pre"])
+        small = dict(id=c["id"], kind=r["kind"], level="rustc", mutation=c["mutation"], expect=c["expect"], program=c["program"],
+                     text=r["job"]["pre"], only_kind=c.get("only_kind"))
+        got = ["compiled"] if r["compiled"] else ["rejected"] + [[e["line"], e["cls"], e["detail"]] for e in r["errors"][:3]]
+        panicked = any(e["cls"] == "panic" for e in r["errors"])
+        known = known_class(c, ["panic"]) if panicked else None
+        mv = model_by_id[c["id"]]["kinds"][r["kind"]]["check"]
+        classes = set("err:" + e["cls"] for e in r["errors"])
+        # model (macro level) vs rustc
+        if mv[0] == "ok" and not r["compiled"] and want != {"err:rustc_unknown_rel_attr"}:
+            mism.append(dict(case=dict(case=small), impl=got, model=mv, spec=sorted(want), kind="model_differs", known=None,
+                             what="correspondence Check/CheckModel.v check vs rustc (%s!, %s): model accepts, rustc rejects: %s" % (r["kind"], c["mutation"], got)))
+        if mv[0] == "err" and verdict_tag(mv) not in classes:
+            mism.append(dict(case=dict(case=small), impl=got, model=mv, spec=sorted(want), kind="model_differs", known=None,
+                             what="correspondence Check/CheckModel.v check vs rustc (%s!, %s): model %s, rustc %s" % (r["kind"], c["mutation"], mv, got)))
+        if mv[0] == "panic" and not panicked:
+            mism.append(dict(case=dict(case=small), impl=got, model=mv, spec=sorted(want), kind="model_differs", known=None,
+                             what="correspondence Check/CheckModel.v check vs rustc (%s!, %s): model panics, rustc %s" % (r["kind"], c["mutation"], got)))
+        # property vs rustc
         if want == {"ok"}:
             if not r["compiled"]:
-                mism.append(dict(case=dict(case=small), impl=r["errors"][:3], model=None, spec=["ok"], kind="impl_violates_spec", known=None,
-                                 what="a well-formed generated program does not compile (%s!): %s" % (r["kind"], r["errors"][:2])))
+                mism.append(dict(case=dict(case=small), impl=got, model=mv, spec=["ok"], kind="impl_violates_spec", known=known,
+                                 what="a well-formed generated program does not compile with rustc (%s!, %s): %s" % (r["kind"], c["mutation"], [e["text"] for e in r["errors"][:2]])))
             continue
         if r["compiled"]:
-            mism.append(dict(case=dict(case=small), impl="compiled", model=None, spec=sorted(want), kind="impl_violates_spec", known=None,
+            mism.append(dict(case=dict(case=small), impl=got, model=mv, spec=sorted(want), kind="impl_violates_spec", known=None,
                              what="an ill-formed program (%s) compiles with rustc (%s!)" % (c["mutation"], r["kind"])))
             continue
         hit = [e for e in r["errors"] if ("err:" + e["cls"]) in want]
         inside = [e for e in hit if 2 <= e["line"] <= r["job"]["nlines"] + 1]
         if not hit:
-            mism.append(dict(case=dict(case=small), impl=r["errors"][:3], model=None, spec=sorted(want), kind="impl_violates_spec",
-                             known="fresh_ident_capture_panics" if False else None,
-                             what="rustc rejects the program (%s) but not with the error of the violation: %s" % (c["mutation"], [e["text"] for e in r["errors"][:3]])))
+            mism.append(dict(case=dict(case=small), impl=got, model=mv, spec=sorted(want), kind="impl_violates_spec", known=known,
+                             what="rustc rejects the program (%s, %s!) but not with the error of the violation: %s" % (c["mutation"], r["kind"], [e["text"] for e in r["errors"][:3]])))
         elif not inside:
-            mism.append(dict(case=dict(case=small), impl=r["errors"][:3], model=None, spec=sorted(want), kind="impl_violates_spec", known=None,
+            mism.append(dict(case=dict(case=small), impl=got, model=mv, spec=sorted(want), kind="impl_violates_spec", known=None,
                              what="the error of the violation (%s) is not reported at the program text: lines %s" % (c["mutation"], [e["line"] for e in hit])))
     return dict(
         evaluations=nfront + len(rres), distinct_nontrivial=len(nontrivial),
